@@ -115,7 +115,8 @@ func runC13(c *Ctx) {
 	mon.DiscardStdLog()
 	ncalls := c.Pick(2400, 40000)
 	r := mon.NewRng(uint64(c.Seed) ^ 0xC13)
-	var evals, leaks, promptTrips, unwound int64
+	var evals, leaks, promptTrips, unwound, reusedCalls int64
+	var sharedCPU *z80.CPU
 	distinct := mon.NewDistinct(1_000_000)
 	afterHist := map[string]int64{}
 	errKinds := map[string]int64{}
@@ -226,6 +227,18 @@ func runC13(c *Ctx) {
 			io = &zeroIO{}
 		}
 		cpu := &z80.CPU{States: st, Memory: mem, IO: io}
+		if call%2 == 0 {
+			// every other call re-uses ONE CPU object for the whole workload (a host keeps its
+			// CPU; whatever a Run that ended by cancellation, deadline, HALT, panic or Goexit
+			// left on the object meets the next Run and the next context)
+			if sharedCPU == nil {
+				sharedCPU = &z80.CPU{}
+			}
+			cpu = sharedCPU
+			cpu.States, cpu.Memory, cpu.IO = st, mem, io
+			cpu.Interrupt, cpu.HALT, cpu.BreakPoints = nil, false, nil
+			reusedCalls++
+		}
 		// a maskable request that stays refused (these loops never enable interrupts): it
 		// belongs to the state Run leaves behind, like everything else
 		var pendingReq *z80.Interrupt
@@ -572,6 +585,7 @@ func runC13(c *Ctx) {
 	c.R.Set("run_calls", evals)
 	c.R.Set("distinct_nontrivial", distinct.N())
 	c.R.Set("goroutines_left_behind", leaks)
+	c.R.Set("calls_on_one_reused_cpu_object", reusedCalls)
 	c.R.Set("runs_left_by_unwinding_device_panic_or_goexit", unwound)
 	c.R.Set("not_prompt_trips", promptTrips)
 	c.R.Set("accesses_after_context_done_histogram", afterHist)
@@ -584,6 +598,6 @@ func runC13(c *Ctx) {
 	c.R.Set("gomaxprocs", pm)
 	c.R.Set("programs", int64(len(c13Progs)))
 	c.R.Set("exhaustive", false)
-	c.R.Set("rule", "Run calls on {JR loop, JP loop, JP (IX) loop and LDIR/OTIR/CPIR loops made of prefixed instructions only, INIR and LDIR loops, a port-polling loop, an NMI storm in which every acceptance's own stack write raises the next NMI, memories filled with one prefix/opcode pattern (DD, FD, DD FD, ED, CB, DD CB, NOP, RST 38), generated terminating programs} with starting R in {0,1,3,7F,random} x cancellation {from inside the program's own bus callback at access 1,2,10,1000,100000 or random, from a second goroutine after a random spin, cancelled before the call, deadline already expired, deadline in 1 ms, a child of a parent cancelled from the callback, cancelled with a cause / timed out with a cause / child of a parent cancelled with a cause (Run must return ctx.Err(), not the cause), never (program halts; context kept alive), the user's device panicking (recovered by the caller) or ending the goroutine (runtime.Goexit) in the middle of Run with the context staying alive (only the nothing-left-behind rule is applied to these)} x GOMAXPROCS {1,2,16}. Oracle: returned error == ctx.Err() (nil with the halted state also legal for terminating programs); logical promptness: once the context is done every bus callback yields / sleeps 1 ms and Run may make at most 3000 further accesses (a correct loop needs 1..6) - a count, not a stopwatch; a refused maskable request pending at the call (1/3 of the loop programs) must still be pending afterwards; the final States and memory must equal a Step-driven twin advanced to the same access count (whole number of Steps); after every batch of 50 calls no goroutine with a z80 frame may remain, first while the batch's never-cancelled contexts are still alive, then after cancelling them; a hook-free phase runs short terminating programs with contexts that are done at about the moment of the HALT (no yields/sleeps anywhere) so that the race detector sees the HALT exit overlap the publication of the cancellation; zero race reports (binary built with -race). Distinct = distinct (program, GOMAXPROCS, cancellation instant, starting R, mode)")
+	c.R.Set("rule", "Run calls on {JR loop, JP loop, JP (IX) loop and LDIR/OTIR/CPIR loops made of prefixed instructions only, INIR and LDIR loops, a port-polling loop, an NMI storm in which every acceptance's own stack write raises the next NMI, memories filled with one prefix/opcode pattern (DD, FD, DD FD, ED, CB, DD CB, NOP, RST 38), generated terminating programs} with starting R in {0,1,3,7F,random} x cancellation {from inside the program's own bus callback at access 1,2,10,1000,100000 or random, from a second goroutine after a random spin, cancelled before the call, deadline already expired, deadline in 1 ms, a child of a parent cancelled from the callback, cancelled with a cause / timed out with a cause / child of a parent cancelled with a cause (Run must return ctx.Err(), not the cause), never (program halts; context kept alive), the user's device panicking (recovered by the caller) or ending the goroutine (runtime.Goexit) in the middle of Run with the context staying alive (only the nothing-left-behind rule is applied to these)} x GOMAXPROCS {1,2,16}; every other call runs on ONE CPU object re-used for the whole workload. Oracle: returned error == ctx.Err() (nil with the halted state also legal for terminating programs); logical promptness: once the context is done every bus callback yields / sleeps 1 ms and Run may make at most 3000 further accesses (a correct loop needs 1..6) - a count, not a stopwatch; a refused maskable request pending at the call (1/3 of the loop programs) must still be pending afterwards; the final States and memory must equal a Step-driven twin advanced to the same access count (whole number of Steps); after every batch of 50 calls no goroutine with a z80 frame may remain, first while the batch's never-cancelled contexts are still alive, then after cancelling them; a hook-free phase runs short terminating programs with contexts that are done at about the moment of the HALT (no yields/sleeps anywhere) so that the race detector sees the HALT exit overlap the publication of the cancellation; zero race reports (binary built with -race). Distinct = distinct (program, GOMAXPROCS, cancellation instant, starting R, mode)")
 	c.R.Assume("nothing assumes that a watcher goroutine exists; leak accounting looks only at goroutines with frames of the code under test")
 }
